@@ -84,6 +84,10 @@ def call(ex, st, base, attr, recv, args, kwargs, node):
             yield st, ex.narrow(st, V("py", z3.If(S.dict_has(d, k), S.dict_get(d, k), box(dflt))))
             return
         if attr == "keys":
+            if ex.total and getattr(ex, "modname", None) is not None:
+                # module-level constant expression (e.g. `A | MAPPING.keys() | {X}`): a key view
+                yield st, Const("keysview", base)
+                return
             yield st, V("list", S.dkeys(d))
             return
         if attr == "values":
@@ -208,9 +212,15 @@ def call(ex, st, base, attr, recv, args, kwargs, node):
         if attr == "hex":
             yield st, eng.spec_apply("spec.core", "hex_of", [base])
             return
+        if attr == "startswith":
+            o = ex.narrow(st, args[0])
+            if o.ty != "bytes":
+                raise _U("bytes.startswith arg")
+            yield st, V("bool", z3.PrefixOf(o.t, base.t))
+            return
         raise _U(f"bytes.{attr}")
     # ------------------------------------------------------------------- int
-    if ty in ("int", "bool"):
+    if ty in ("int", "bool", "bv64"):
         x = ex.as_int(base)
         if attr == "bit_length":
             yield st, eng.spec_apply("spec.core", "bit_length", [V("int", x)])
@@ -227,6 +237,18 @@ def call(ex, st, base, attr, recv, args, kwargs, node):
                 raise _U("to_bytes signed symbolic")
             n = ex.as_int(ex.narrow(st, length))
             big = ot.as_string() == "big"
+            nc = arith.is_conc(n)
+            if nc is not None and nc >= 0:
+                p = z3.IntVal(2 ** (8 * nc - 1) if z3.is_true(sg) and nc > 0 else (2 ** (8 * nc) if not z3.is_true(sg) else 1))
+                if z3.is_true(sg):
+                    ok = z3.BoolVal(False) if nc == 0 and False else (z3.And(-p <= x, x < p) if nc > 0 else x == 0)
+                    fn = "int_to_bytes_signed_big" if big else "int_to_bytes_signed_little"
+                else:
+                    ok = z3.And(x >= 0, x < p)
+                    fn = "int_to_bytes_big" if big else "int_to_bytes_little"
+                for st1, r in ex.need(st, ok, "OverflowError", "to_bytes"):
+                    yield st1, (r if r is not None else eng.spec_apply("spec.core", fn, [V("int", x), V("int", n)]))
+                return
             if z3.is_true(sg):
                 p = eng.spec_apply("spec.core", "pow2", [V("int", 8 * n - 1)]).t
                 ok = z3.And(n >= 0, z3.Or(z3.And(n == 0, x == 0), z3.And(n > 0, -p <= x, x < p)))
